@@ -90,7 +90,15 @@ func errStr(err error) string {
 // ------------------------------------------------------------------ scenarios
 
 func scalarMixture(mk func() []ScalarEstimator, data func(*rand.Rand, int) []float64) func(ThreadPool, int, int64) result {
+	return scalarMixtureOpt(mk, data, true, false)
+}
+
+// optimizeEmissions = false: weights-only EM; summarized = true: DiscreteMixtureEstimator on (value, count) data
+func scalarMixtureOpt(mk func() []ScalarEstimator, data func(*rand.Rand, int) []float64, optimizeEmissions, summarized bool) func(ThreadPool, int, int64) result {
 	return func(p ThreadPool, size int, seed int64) result {
+		if summarized {
+			return summarizedMixture(mk, data, p, size, seed)
+		}
 		rng := rand.New(rand.NewSource(seed))
 		liks := []float64{}
 		hook := generic.EmHook{Value: func(m generic.BasicMixture, i int, l, e float64) {
@@ -102,6 +110,7 @@ func scalarMixture(mk func() []ScalarEstimator, data func(*rand.Rand, int) []flo
 		if err != nil {
 			return result{Err: "construct: " + err.Error()}
 		}
+		est.OptimizeEmissions = optimizeEmissions
 		x := NewDenseFloat64Vector(data(rng, size))
 		if err := est.EstimateOnData(x, nil, p); err != nil {
 			return result{Err: err.Error(), Liks: liks}
@@ -112,6 +121,32 @@ func scalarMixture(mk func() []ScalarEstimator, data func(*rand.Rand, int) []flo
 		}
 		return result{Params: params(d), Liks: liks}
 	}
+}
+
+func summarizedMixture(mk func() []ScalarEstimator, data func(*rand.Rand, int) []float64, p ThreadPool, size int, seed int64) result {
+	rng := rand.New(rand.NewSource(seed))
+	liks := []float64{}
+	hook := generic.EmHook{Value: func(m generic.BasicMixture, i int, l, e float64) {
+		if i > 0 {
+			liks = append(liks, l)
+		}
+	}}
+	est, err := scalarEstimator.NewDiscreteMixtureEstimator([]float64{1, 2}, mk(), 0.0, 3, hook)
+	if err != nil {
+		return result{Err: "construct: " + err.Error()}
+	}
+	x := NewDenseFloat64Vector(data(rng, 3*size+4))
+	if err := est.SetData(x, x.Dim()); err != nil {
+		return result{Err: err.Error()}
+	}
+	if err := est.Estimate(nil, p); err != nil {
+		return result{Err: err.Error(), Liks: liks}
+	}
+	d, err := est.GetEstimate()
+	if err != nil {
+		return result{Err: err.Error(), Liks: liks}
+	}
+	return result{Params: params(d), Liks: liks}
 }
 
 func hmmScenario(mk func() []ScalarEstimator, data func(*rand.Rand, int) []float64, start, final []int) func(ThreadPool, int, int64) result {
@@ -277,6 +312,8 @@ func scenarios() []scenario {
 		{"vhmm-nested-mixture", "", hmmScenario(nestedMixtures, normalData, nil, nil)},
 		{"smix-normal", "em", scalarMixture(normals, normalData)},
 		{"smix-poisson", "em", scalarMixture(poissons, counts)},
+		{"smix-normal-weights-only", "em", scalarMixtureOpt(normals, normalData, false, false)},
+		{"dmix-poisson-summarized", "em", scalarMixtureOpt(poissons, counts, true, true)},
 		{"vhmm-categorical", "bw", hmmScenario(categoricals, binary, nil, nil)},
 		{"vhmm-normal", "bw", hmmScenario(normals, normalData, nil, nil)},
 		{"vhmm-categorical-startfinal", "bw", hmmScenario(categoricals, binary, []int{0}, []int{0})},
@@ -286,6 +323,11 @@ func scenarios() []scenario {
 		{"exponential", "", plainScalar(func() (scalarEst, error) { return scalarEstimator.NewExponentialEstimator(1, 100) }, positive, false)},
 		{"exponential-weighted", "", plainScalar(func() (scalarEst, error) { return scalarEstimator.NewExponentialEstimator(1, 100) }, positive, true)},
 		{"poisson", "", plainScalar(func() (scalarEst, error) { return scalarEstimator.NewPoissonEstimator(1) }, counts, true)},
+		{"poisson-unweighted", "", plainScalar(func() (scalarEst, error) { return scalarEstimator.NewPoissonEstimator(1) }, counts, false)},
+		{"geometric-unweighted", "", plainScalar(func() (scalarEst, error) { return scalarEstimator.NewGeometricEstimator(0.5) }, counts, false)},
+		{"categorical-unweighted", "", plainScalar(func() (scalarEst, error) {
+			return scalarEstimator.NewCategoricalEstimator([]float64{0.2, 0.2, 0.2, 0.1, 0.1, 0.1, 0.1})
+		}, counts, false)},
 		{"geometric", "", plainScalar(func() (scalarEst, error) { return scalarEstimator.NewGeometricEstimator(0.5) }, counts, true)},
 		{"categorical", "", plainScalar(func() (scalarEst, error) {
 			return scalarEstimator.NewCategoricalEstimator([]float64{0.2, 0.2, 0.2, 0.1, 0.1, 0.1, 0.1})
